@@ -469,6 +469,9 @@ class Function:
             if dk == "global":
                 if "cv" in nd:
                     return ("const", int(nd["cv"]))
+                if nd.get("qn") in GLOBAL_STRINGS:
+                    # a constant character array initialised from a string literal, used by name: that literal
+                    return ("str", GLOBAL_STRINGS[nd.get("qn")])
                 return ("global", nd.get("qn"))
             if dk == "func":
                 return ("func", nd.get("fn"))
@@ -583,6 +586,7 @@ def canon_cond(c, a, b):
     return ("cond", c, a, b)
 
 
+GLOBAL_STRINGS = {}
 PURE_EXPRS = {}
 
 
@@ -820,6 +824,10 @@ class Facts:
         # Functions whose body is a single `return <expression>;` are that expression, with parameters and the receiver
         # substituted (so extracting an expression into a helper, or inlining such a helper, leaves every term unchanged).
         # Computed to a fix-point because the helpers may use one another.
+        GLOBAL_STRINGS.clear()
+        for q, v in self.vars.items():
+            if v.get("const") and (v.get("ct") or "").startswith("const char[") and "string_bytes" in v and v["loc"]["file"].startswith(self.repo):
+                GLOBAL_STRINGS[q] = bytes(v["string_bytes"])
         PURE_EXPRS.clear()
         PURE_FUNCS.clear()
         for _round in range(5):
